@@ -48,7 +48,9 @@ struct StrAtom { const char *name; std::string v; };
 static std::vector<StrAtom> STRS;
 struct FuncAtom { const char *name; const char *fname; int nargs; mp::func::Type type; };
 static const FuncAtom FUNCS[] = {{"f0", "foo", -1, mp::func::SYMBOLIC}, {"f1", "bar", -1, mp::func::SYMBOLIC},
-                                 {"f2", "foo", 2, mp::func::NUMERIC}};
+                                 {"f2", "foo", 2, mp::func::NUMERIC},
+                                 // a second table entry with the signature of f0: a different function all the same
+                                 {"f3", "foo", -1, mp::func::SYMBOLIC}};
 
 struct KindName { const char *name; ex::Kind kind; };
 static const KindName KINDS[] = {
@@ -244,7 +246,8 @@ struct Dumper {
     return "?str";
   }
   std::string func(mp::Function fn) {
-    for (size_t i = 0; i < funcs.size(); ++i) if (funcs[i] == fn) return FUNCS[i].name;
+    // which table entry: by the address of the entry's own copy of the name (not by operator==, which is under test)
+    for (size_t i = 0; i < funcs.size(); ++i) if (funcs[i].name() == fn.name()) return FUNCS[i].name;
     return "?func";
   }
   void node(const char *k, const std::vector<std::string> &s, const std::vector<Expr> &c) {
